@@ -540,7 +540,7 @@ def c12_raising(tier, rnd):
 # ------------------------------------------------------------------ C04 / C19
 CAUGHT = ["AttributeError", "NameError", "LookupError", "TypeError", "ValueError", "KeyError", "UnicodeError"]
 NOTCAUGHT = ["ZeroDivisionError", "RuntimeError"]
-WRAPS = ["lambda", "lamarg", "listcomp", "genexp", "cond", "dictitem", "setcomp", "paren"]
+WRAPS = ["lambda", "lamarg", "listcomp", "genexp", "cond", "dictitem", "setcomp", "paren", "compx", "genx", "lamdef", "nestlam", "lamkw"]
 
 
 def shapes(al, tier, excs, ok=None):
@@ -564,6 +564,12 @@ def shapes(al, tier, excs, ok=None):
         ("str", lambda: strx(litp(), c(), litp(), c())),
         ("str-pipe", lambda: strx(litp(), pipe(c(), c()))),
         ("pipe-not", lambda: pipe(c(), not_(c()))),
+        # literals with an escaped quote or an escaped pipe character among the alternatives
+        ("pipe-litq", lambda: pipe(c(), const(S("q")))),
+        ("pipe-litq-mid", lambda: pipe(c(), const(S("q")), c())),
+        ("pipe-litq-first", lambda: pipe(const(S("qq")), c())),
+        ("pipe-litpipe", lambda: pipe(c(), const(S("pp")), c())),
+        ("pipe-var-litq", lambda: pipe(var("nope"), const(S("q")))),
         ("pipe-var", lambda: pipe(var("nope"), c())),
         ("var-builtin", lambda: pipe(var("len"), c())),
         ("attr", lambda: attr(al.call("content", [DICT([("a", S("b"))]), DICT([("z", S("b"))]), OBJ("attr"), NONE,
@@ -584,8 +590,8 @@ SITES = ["define", "cond", "repeat", "switch", "case", "content", "replace", "om
 
 def host(site, e, al):
     """a small program with expression e at the given site"""
-    pre = Text("pre\n ", pipe(var("x"), const(S("u0"))))
-    post = Text("post", pipe(var("x"), const(S("u0"))))
+    pre = Text("pre\n ", pipe(var("x"), const(S("u0"))), pipe(var("y"), const(S("u0"))))
+    post = Text("post", pipe(var("x"), const(S("u0"))), pipe(var("y"), const(S("u0"))))
     kid = Text("k")
     if site == "define":
         el = Open(define=[(False, "x", e)], sattr=["class"])
@@ -638,7 +644,9 @@ def c04_family(tier, rnd):
             if site == "repeat" and sname.split("-")[0] in ("not", "exists", "str"):
                 continue     # these never yield an iterable
             items = host(site, e, al)
-            progs.append(program(items, al.dom, init={"x": S("c")} if sname.startswith("wrapvar") else {},
+            # (wrapper forms bind names of their own -- x, y, len: the template's variables of these names are bound, and
+            # read before and after the element)
+            progs.append(program(items, al.dom, init={"x": S("c"), "y": S("p")} if sname.startswith("wrap") else {},
                                  fam="C04:%s@%s" % (sname, site)))
     # the same expression text several times in one string: every occurrence is an evaluation of its own
     vals = [S("a"), S("b")] if tier == "quick" else [S("a"), S("b"), NONE, EXC("KeyError")]
